@@ -105,7 +105,7 @@ let step _ cs os =
            o_flags = [] })
     | "wf" ->
       let xs = elems_of_hex w (get f "xs") in
-      (Beve.KWrongFmt (ety_of t, xs, n_of_hex (get f "bf")),
+      (Beve.KWrongFmt (ety_of t, xs, n_of_hex (get f "bf"), (get_opt f "g" = Some "1")),
        fun () ->
          { Beve.o_bytes = [];
            o_res = Stdlib.List.map (fun k -> res_of w None (get o k)) ["r1"; "r2"; "r3"; "r4"];
